@@ -54,6 +54,18 @@ def c01_api(r, idx):
         f = first.field.add(); f.name, f.number, f.label, f.type, f.type_name = "status_report", 75, 1, 11, rep.fqn
         extra_files.append(st)
         feats.append("same-basename-dependency")
+    if idx % 2 == 0:
+        # a NESTED message with a field named like a sibling module it also takes a type from (the module must be aliased)
+        cm = File(f"{api.dir}/common.proto", api.package)
+        th = cm.message("Thing"); th.field("label", 1, "string")
+        api.main.dep(cm.proto.name)
+        rack = api.main.message("Rack")
+        slot = rack.nested("Slot"); slot.field("common", 1, "string").field("thing", 2, th.fqn)
+        rack.field("slots", 1, slot.fqn, repeated=True)
+        first = api.main.proto.message_type[0]
+        f = first.field.add(); f.name, f.number, f.label, f.type, f.type_name = "rack", 76, 1, 11, rack.fqn
+        extra_files.append(cm)
+        feats.append("nested-field-named-like-module")
     if k in (2, 4, 5):
         dep = File("acme/common/types.proto", "acme.common")
         mo = dep.message("Money"); mo.field("units", 1, "int64").field("currency", 2, "string")
